@@ -198,6 +198,11 @@ def check_loop(ctx, rep, rule_neigh='S-neigh', rule_recompute='S-recompute'):
             rem = [c for c in calls if c[1] == 'remove']
             pis = [c for c in calls if c[1] == 'possible_intersection']
             if in_line:
+                queried = set(c[1] for c in calls if c[1] in ('prev', 'next') and c[2] == (o,))
+                rep.ob(rule_neigh, 'neighbours-queried-before-removal@' + key, queried == {'prev', 'next'},
+                       'before a segment is removed both of its sweep-line neighbours must be looked up (sweep_line.prev / next of the left '
+                       'event) on every path; this path queries %s' % sorted(queried),
+                       loc=b.loc(rem[0][3]) if rem else b.loc(b.j['line_lo']), reason='dominance')
                 both = is_true(brs.get('has(prev(%s))' % o, ('eq', 0))) and is_true(brs.get('has(next(%s))' % o, ('eq', 0)))
                 exp = [('prev(%s)' % o, 'next(%s)' % o)] if both else []
                 got = [c[2] for c in pis]
